@@ -81,6 +81,14 @@ func New(mode Mode, bal Bal, meta Meta) *Store {
 	return s
 }
 
+// StaticMaps: the very maps the bundled StaticStore hands out (nil, nil in the other modes).
+func (s *Store) StaticMaps() (interpreter.Balances, interpreter.AccountsMetadata) {
+	if s.Mode != Static {
+		return nil, nil
+	}
+	return s.static.Balances, s.static.Meta
+}
+
 func FaultMsg(k int) string { return fmt.Sprintf("store-fault-%d", k) }
 
 func copyQ(q map[string][]string) map[string][]string {
